@@ -150,8 +150,10 @@ def finish(prop, tier, seed, cfg, w, results, extra_results, t0, update_lock):
             undecided.append(f"{q}: {r['reason']}")
         elif r["status"] in ("crash", "error"):
             crashes.append(f"{q}: {r['reason']}")
-        if q in w.funcs:
-            fe = w.func_evidence(q)
+        base_q = q.split("@")[0]
+        if base_q in w.funcs:
+            fe = w.func_evidence(base_q)
+            fe["contract"] = q
             fe.update(paths=r.get("paths"), exits=r.get("exits"), obligations=len(r["obligs"]), time_s=r.get("time_s"),
                       status=r["status"])
             funcs_ev.append(fe)
